@@ -43,7 +43,8 @@ pub enum Op {
     /// Drop the world and restart from the last snapshot (or an empty world).
     Crash { slot: u8 },
     DropWorld { slot: u8 },
-    ResView { slot: u8, site: u16, salt: Option<u64> },
+    /// via: 0 = World::view_resources, 1 = Result::resources of a query with an identifier iterator, 2 = of a query with entry views.
+    ResView { slot: u8, site: u16, salt: Option<u64>, #[serde(default)] via: u8 },
     ResGetMut { slot: u8, which: u8, salt: u64 },
     EqCheck { a: u8, b: u8 },
     DebugFmt { slot: u8 },
